@@ -19,6 +19,7 @@ import KafkaVerif.Model.PullReader
 import KafkaVerif.Model.ReaderWorld
 import KafkaVerif.Model.ByteReader
 import KafkaVerif.Model.ByteHeader
+import KafkaVerif.Model.ByteWalk
 
 namespace KV.OracleC02
 open KV KV.C02
@@ -620,7 +621,13 @@ def step (line : String) : String :=
           let actual := tokenize tokCfg (bytes.length + 1) .hdr bytes
           let plainV2 := items.all fun it => match it with | .b2 _ _ false _ _ => true | .m .. => true | _ => false
           let go := brWalk (bytes.length + 1) none bytes
-          if plainV2 && go != expected then
+          -- the walk `walk_bytes` is about (Model/ByteWalk.lean), on message sets of uncompressed v2 batches only
+          let onlyV2 := items.all fun it => match it with | .b2 _ _ false _ _ => true | _ => false
+          let wk := BR.walk (fun fts v => digestOf v.key v.value (fts + v.tsDelta) (v.headers.map fun x => ⟨x.1, x.2⟩))
+            (bytes.length + 1) none bytes
+          if onlyV2 && wk != expected then
+            answer s!"walk-bytes-diff:{repr (wk.zip expected |>.find? (fun p => p.1 != p.2))}" false
+          else if plainV2 && go != expected then
             answer s!"go-bytes-diff:{repr (go.zip expected |>.find? (fun p => p.1 != p.2))}" false
           else if actual == expected then answer "same" true
           else answer s!"diff:{repr (actual.zip expected |>.find? (fun p => p.1 != p.2))}" false
